@@ -148,7 +148,7 @@ pub fn check_completeness(src: &str, dir: &Path, case: &Value) -> Vec<Violation>
 // ---------------------------------------------------------------------------------------------
 // Faithfulness
 
-pub const PAIR_SUPPORT: &str = "pragma circom 2.1.0;\ntemplate T2(p) {\n    signal input in1;\n    signal input in2;\n    signal output out;\n    out <== in1 * in2 + p;\n}\ntemplate T1() {\n    signal input in;\n    signal output out;\n    out <== in + 1;\n}\ntemplate T3() {\n    signal input i1;\n    signal input i2;\n    signal input i3;\n    signal output out;\n    out <== i1 * i2 + i3;\n}\ntemplate TN() {\n    signal input in;\n    in * in === in;\n}\ntemplate TO2() {\n    signal input in;\n    signal output o1;\n    signal output o2;\n    o1 <== in;\n    o2 <== in + 1;\n}\n";
+pub const PAIR_SUPPORT: &str = "pragma circom 2.1.0;\ntemplate T2(p) {\n    signal input in1;\n    signal input in2;\n    signal output out;\n    out <== in1 * in2 + p;\n}\ntemplate T1() {\n    signal input in;\n    signal output out;\n    out <== in + 1;\n}\ntemplate T3() {\n    signal input i1;\n    signal input i2;\n    signal input i3;\n    signal output out;\n    out <== i1 * i2 + i3;\n}\ntemplate TN() {\n    signal input in;\n    in * in === in;\n}\ntemplate TO2() {\n    signal input in;\n    signal output o1;\n    signal output o2;\n    o1 <== in;\n    o2 <== in + 1;\n}\ntemplate TZ() {\n    signal input zin;\n    signal input ain;\n    signal output zout;\n    signal output aout;\n    zout <== zin * 2;\n    aout <== ain + 1;\n}\n";
 
 /// (name, sugared body, expanded body); both are the body of `template M(n)` after the common
 /// prologue. `ANON` is the hand-chosen name of the component in the expansion.
@@ -214,6 +214,9 @@ pub fn pairs() -> Vec<(&'static str, String, String)> {
         Source { text: "TO2()(a)", setup: "component ANON = TO2();\n    ANON.in <== a;\n    ", values: &["ANON.o1", "ANON.o2"] },
         Source { text: "parallel TO2()(a)", setup: "component ANON = parallel TO2();\n    ANON.in <== a;\n    ", values: &["ANON.o1", "ANON.o2"] },
         Source { text: "TO2()(in <-- a * a * a)", setup: "component ANON = TO2();\n    ANON.in <-- a * a * a;\n    ", values: &["ANON.o1", "ANON.o2"] },
+        // inputs and outputs declared in an order that is not the alphabetical one
+        Source { text: "TZ()(a * a, b)", setup: "component ANON = TZ();\n    ANON.zin <== a * a;\n    ANON.ain <== b;\n    ", values: &["ANON.zout", "ANON.aout"] },
+        Source { text: "parallel TZ()(ain <-- b, zin <== a)", setup: "component ANON = parallel TZ();\n    ANON.zin <== a;\n    ANON.ain <-- b;\n    ", values: &["ANON.zout", "ANON.aout"] },
     ];
     let sources1 = [
         Source { text: "T2(n)(a, b)", setup: "component ANON = T2(n);\n    ANON.in1 <== a;\n    ANON.in2 <== b;\n    ", values: &["ANON.out"] },
